@@ -1,6 +1,235 @@
+(* RTPBuffer refines "the designated packet of the send history inside the
+   window" (Spec/C04Spec.v), for every history of Add/Clear and every size. *)
 From IV Require Import Base.Word Model.RtpBuffer Spec.C04Spec.
 From Coq Require Import ZifyBool.
 Ltac Zify.zify_post_hook ::= Z.div_mod_to_equations.
+
+Lemma valid_size_In S : valid_size S = true -> In S valid_sizes.
+Proof.
+  unfold valid_size. rewrite existsb_exists. intros [x [Hin Heq]].
+  apply Z.eqb_eq in Heq. subst; auto.
+Qed.
+
+Ltac sizes H := simpl in H; repeat (destruct H as [H|H]; [subst|]); try contradiction.
+
+(* ---- arithmetic of slots: size divides 2^16 (case analysis on the 16 sizes) ---- *)
+Lemma size_pos S : In S valid_sizes -> 0 < S <= 32768.
+Proof. intros H. sizes H; lia. Qed.
+Lemma mod_mod_size S x : In S valid_sizes -> (x mod 65536) mod S = x mod S.
+Proof. intros H. sizes H; lia. Qed.
+Lemma window_inj S h k1 k2 : In S valid_sizes -> 0 <= k1 < S -> 0 <= k2 < S ->
+  (h - k1) mod S = (h - k2) mod S -> k1 = k2.
+Proof. intros H. sizes H; lia. Qed.
+Lemma in_cleared S h diff k : In S valid_sizes -> 0 < k < diff -> k < S ->
+  (((h + diff - k) mod S) - (h mod 65536 + 1)) mod S < diff - 1.
+Proof. intros H. sizes H; lia. Qed.
+Lemma not_cleared S h diff k : In S valid_sizes -> 0 < diff <= k -> k < S ->
+  ~ (((h + diff - k) mod S) - (h mod 65536 + 1)) mod S < diff - 1.
+Proof. intros H. sizes H; lia. Qed.
+
+(* ---- slots as a finite map ---- *)
+Lemma find_filter_slot S (g : Z -> bool) l j :
+  find (fun p => slot S p =? j) (filter (fun p => g (slot S p)) l) =
+  if g j then find (fun p => slot S p =? j) l else None.
+Proof.
+  induction l as [|a l IH]; simpl.
+  - destruct (g j); reflexivity.
+  - destruct (g (slot S a)) eqn:Ga; simpl.
+    + destruct (slot S a =? j) eqn:E.
+      * apply Z.eqb_eq in E. rewrite <- E, Ga. reflexivity.
+      * exact IH.
+    + destruct (slot S a =? j) eqn:E.
+      * apply Z.eqb_eq in E. rewrite <- E, Ga in *. exact IH.
+      * exact IH.
+Qed.
+
+Lemma slot_get_clear S l i j :
+  slot_get S (slot_clear S l i) j = if i =? j then None else slot_get S l j.
+Proof.
+  unfold slot_get, slot_clear.
+  rewrite (find_filter_slot S (fun s => negb (s =? i)) l j).
+  rewrite (Z.eqb_sym j i). destruct (i =? j); reflexivity.
+Qed.
+
+Lemma slot_get_set S l p j :
+  slot_get S (slot_set S l p) j = if slot S p =? j then Some p else slot_get S l j.
+Proof.
+  unfold slot_set. unfold slot_get at 1. simpl.
+  destruct (slot S p =? j) eqn:E; [reflexivity|].
+  fold (slot_get S (slot_clear S l (slot S p)) j). rewrite slot_get_clear, E. reflexivity.
+Qed.
+
+Lemma slot_get_between S l hi diff j :
+  slot_get S (clear_between S l hi diff) j =
+  if (j - (hi + 1)) mod S <? diff - 1 then None else slot_get S l j.
+Proof.
+  unfold slot_get, clear_between.
+  rewrite (find_filter_slot S (fun s => negb ((s - (hi + 1)) mod S <? diff - 1)) l j).
+  destruct (_ <? _); reflexivity.
+Qed.
+
+(* ---- the refinement relation ---- *)
+Definition sent_ok (h : Z) (sent : list (Z * rp)) : Prop :=
+  forall u x, In (u, x) sent -> u <= h /\ rp_seq x = u mod 65536.
+
+Definition Inv (S : Z) (b : rbuf) (a : ahist rp) : Prop :=
+  rb_size b = S /\
+  match ah_hi a with
+  | None => rb_started b = false /\ rb_pkts b = [] /\ ah_sent a = []
+  | Some h => rb_started b = true /\ rb_hi b = h mod 65536 /\ sent_ok h (ah_sent a) /\
+              forall k, 0 <= k < S -> slot_get S (rb_pkts b) ((h - k) mod S) = lookup (h - k) (ah_sent a)
+  end.
+
+Lemma lookup_cons u v (x : rp) sent :
+  lookup u ((v, x) :: sent) = if v =? u then Some x else lookup u sent.
+Proof. unfold lookup. simpl. destruct (v =? u); reflexivity. Qed.
+
+Lemma lookup_In u sent (x : rp) : lookup u sent = Some x -> In (u, x) sent.
+Proof.
+  unfold lookup. induction sent as [|[v y] r IH]; simpl; [discriminate|].
+  destruct (v =? u) eqn:E; simpl.
+  - intros H; inversion H; subst. apply Z.eqb_eq in E; subst. auto.
+  - intros H. right. apply IH. exact H.
+Qed.
+
+Lemma lookup_above h sent u : sent_ok h sent -> h < u -> lookup u sent = None.
+Proof.
+  intros Hs Hu. destruct (lookup u sent) eqn:E; [|reflexivity].
+  apply lookup_In in E. apply Hs in E. lia.
+Qed.
+
+Lemma Inv_new S : In S valid_sizes -> Inv S (mkRB S [] 0 false) ah_empty.
+Proof. intros. split; simpl; auto. Qed.
+
+Lemma Inv_clear S b a : Inv S b a -> Inv S (rb_clear b) ah_empty.
+Proof. intros [H _]. split; simpl; auto. Qed.
+
+Lemma Inv_add S b a p : In S valid_sizes -> 0 <= rp_seq p < 65536 ->
+  Inv S b a -> Inv S (rb_add b p) (ah_add_x a (rp_seq p) p).
+Proof.
+  intros HS Hp [Hsz HI]. pose proof (size_pos S HS) as HSp.
+  unfold rb_add, ah_add_x. cbv zeta. rewrite Hsz.
+  destruct (ah_hi a) as [h|] eqn:Hh.
+  - destruct HI as (Hst & Hhi & Hsent & Hwin). rewrite Hst. simpl negb. cbv iota.
+    unfold sub16. rewrite Hhi.
+    assert (Ed : (rp_seq p - h mod 65536) mod 65536 = (rp_seq p - h) mod 65536) by lia.
+    rewrite Ed. set (d := (rp_seq p - h) mod 65536) in *.
+    assert (Hd : 0 <= d < 65536) by (unfold d; lia).
+    destruct (d =? 0) eqn:E0.
+    { split; [exact Hsz|]. rewrite Hh. auto. }
+    unfold unwrap_to. cbv zeta. fold d. unfold H16.
+    destruct (d <? 32768) eqn:Eh.
+    + (* forward: the window advances to h + d *)
+      split; [reflexivity|]. simpl ah_hi. replace (Z.max h (h + d)) with (h + d) by lia.
+      simpl. split; [reflexivity|]. split; [unfold d; lia|]. split.
+      * intros u x [Hin|Hin]; [inversion Hin; subst; split; [lia|unfold d; lia]|].
+        apply Hsent in Hin. lia.
+      * intros k Hk. rewrite slot_get_set, lookup_cons.
+        destruct (Z.eq_dec k 0) as [->|Hk0].
+        { replace (h + d - 0) with (h + d) by lia.
+          replace (slot S p =? (h + d) mod S) with true; [rewrite Z.eqb_refl; reflexivity|].
+          symmetry. apply Z.eqb_eq. unfold slot.
+          rewrite <- (mod_mod_size S (h + d) HS). f_equal. unfold d. lia. }
+        replace (h + d =? h + d - k) with false by lia.
+        replace (slot S p =? (h + d - k) mod S) with false.
+        2:{ symmetry. apply Z.eqb_neq. intros Heq. apply Hk0.
+            assert (Es : slot S p = (h + d - 0) mod S).
+            { unfold slot. replace (h + d - 0) with (h + d) by lia.
+              rewrite <- (mod_mod_size S (h + d) HS). f_equal. unfold d. lia. }
+            rewrite Es in Heq. symmetry. apply (window_inj S (h + d) 0 k HS); try lia. }
+        rewrite slot_get_between.
+        destruct (Z_lt_dec k d) as [Hlt|Hge].
+        { replace ((((h + d - k) mod S) - (h mod 65536 + 1)) mod S <? d - 1) with true.
+          2:{ symmetry. apply Z.ltb_lt. apply in_cleared; auto; lia. }
+          symmetry. apply (lookup_above h); auto. lia. }
+        { replace ((((h + d - k) mod S) - (h mod 65536 + 1)) mod S <? d - 1) with false.
+          2:{ symmetry. apply Z.ltb_ge. apply Z.nlt_ge. apply not_cleared; auto; lia. }
+          replace (h + d - k) with (h - (k - d)) by lia. apply Hwin. lia. }
+    + (* late *)
+      assert (Ek : (h mod 65536 - rp_seq p) mod 65536 = 65536 - d) by (unfold d in *; lia).
+      rewrite Ek.
+      destruct (65536 - d >=? S) eqn:Eo.
+      * (* older than the window: ignored *)
+        split; [exact Hsz|]. simpl ah_hi. replace (Z.max h (h + d - 65536)) with h by lia.
+        simpl. split; [exact Hst|]. split; [exact Hhi|]. split.
+        { intros u x [Hin|Hin]; [inversion Hin; subst; split; [lia|unfold d; lia]|]. apply Hsent; auto. }
+        { intros k Hk. rewrite lookup_cons. replace (h + d - 65536 =? h - k) with false by lia. apply Hwin; auto. }
+      * split; [reflexivity|]. simpl ah_hi. replace (Z.max h (h + d - 65536)) with h by lia.
+        simpl. split; [reflexivity|]. split; [exact Hhi|]. split.
+        { intros u x [Hin|Hin]; [inversion Hin; subst; split; [lia|unfold d; lia]|]. apply Hsent; auto. }
+        { intros k Hk. rewrite slot_get_set, lookup_cons.
+          assert (Es : slot S p = (h - (65536 - d)) mod S).
+          { unfold slot. rewrite <- (mod_mod_size S (h - (65536 - d)) HS). f_equal. unfold d. lia. }
+          destruct (Z.eq_dec k (65536 - d)) as [->|Hne].
+          - rewrite Es, Z.eqb_refl. replace (h + d - 65536 =? h - (65536 - d)) with true by lia. reflexivity.
+          - replace (h + d - 65536 =? h - k) with false by lia.
+            replace (slot S p =? (h - k) mod S) with false; [apply Hwin; auto|].
+            symmetry. apply Z.eqb_neq. intros Heq. apply Hne. rewrite Es in Heq.
+            symmetry. apply (window_inj S h (65536 - d) k HS); try lia. }
+  - (* first packet *)
+    destruct HI as (Hst & Hpk & Hse). rewrite Hst, Hpk. simpl negb. cbv iota.
+    split; [reflexivity|]. simpl. split; [reflexivity|]. split; [lia|]. split.
+    + intros u x [Hin|[]]. inversion Hin; subst. lia.
+    + intros k Hk. rewrite slot_get_set, lookup_cons.
+      assert (Es : slot S p = (rp_seq p - 0) mod S) by (unfold slot; f_equal; lia).
+      destruct (Z.eq_dec k 0) as [->|Hk0].
+      * rewrite Es, !Z.eqb_refl. replace (rp_seq p =? rp_seq p - 0) with true by lia. reflexivity.
+      * replace (rp_seq p =? rp_seq p - k) with false by lia.
+        replace (slot S p =? (rp_seq p - k) mod S) with false; [reflexivity|].
+        symmetry. apply Z.eqb_neq. intros Heq. apply Hk0. rewrite Es in Heq.
+        symmetry. apply (window_inj S (rp_seq p) 0 k HS); try lia.
+Qed.
+
+(* Get returns exactly the designated packet of the history *)
+Lemma Inv_get S b a seq : In S valid_sizes -> 0 <= seq < 65536 ->
+  Inv S b a -> rb_get b seq = designated S a seq.
+Proof.
+  intros HS Hq [Hsz HI]. pose proof (size_pos S HS) as HSp.
+  unfold rb_get, designated, in_window. cbv zeta. rewrite Hsz.
+  destruct (ah_hi a) as [h|] eqn:Hh.
+  - destruct HI as (Hst & Hhi & Hsent & Hwin). unfold sub16. rewrite Hhi.
+    assert (Ed : (h mod 65536 - seq) mod 65536 = (h - seq) mod 65536) by lia.
+    rewrite Ed. set (k := (h - seq) mod 65536) in *.
+    assert (Hk : 0 <= k < 65536) by (unfold k; lia). unfold H16.
+    destruct (k <? S) eqn:Ek.
+    + replace (k >=? 32768) with false by lia. replace (k >=? S) with false by lia.
+      assert (Es : seq mod S = (h - k) mod S).
+      { rewrite <- (mod_mod_size S (h - k) HS). f_equal. unfold k. lia. }
+      rewrite Es, Hwin by lia.
+      destruct (lookup (h - k) (ah_sent a)) as [p|] eqn:El; [|reflexivity].
+      apply lookup_In in El. apply Hsent in El. destruct El as [_ El].
+      replace (rp_seq p =? seq) with true; [reflexivity|]. symmetry. apply Z.eqb_eq. unfold k in *. lia.
+    + destruct (k >=? 32768); [reflexivity|]. replace (k >=? S) with true by lia. reflexivity.
+  - destruct HI as (_ & Hpk & _). rewrite Hpk. simpl.
+    destruct (_ >=? H16); [reflexivity|]. destruct (_ >=? S); reflexivity.
+Qed.
+
+(* ---- histories ---- *)
+Inductive hop := HAdd (p : rp) | HClear.
+
+Definition hop_ok (o : hop) : Prop := match o with HAdd p => 0 <= rp_seq p < 65536 | HClear => True end.
+
+Definition rb_step (b : rbuf) (o : hop) : rbuf :=
+  match o with HAdd p => rb_add b p | HClear => rb_clear b end.
+Definition ah_step_x (a : ahist rp) (o : hop) : ahist rp :=
+  match o with HAdd p => ah_add_x a (rp_seq p) p | HClear => ah_empty end.
+Definition ah_step (a : ahist rp) (o : hop) : ahist rp :=
+  match o with HAdd p => ah_add a (rp_seq p) p | HClear => ah_empty end.
+
+Lemma Inv_run S ops : In S valid_sizes -> Forall hop_ok ops -> forall b a,
+  Inv S b a -> Inv S (fold_left rb_step ops b) (fold_left ah_step_x ops a).
+Proof.
+  intros HS. induction 1 as [|o ops Ho _ IH]; intros b a HI; simpl; auto.
+  apply IH. destruct o; simpl; [apply Inv_add; auto|eapply Inv_clear; eauto].
+Qed.
+
+Theorem get_exact S ops seq : valid_size S = true -> Forall hop_ok ops -> 0 <= seq < 65536 ->
+  rb_get (fold_left rb_step ops (mkRB S [] 0 false)) seq =
+  designated S (fold_left ah_step_x ops ah_empty) seq.
+Proof.
+  intros HS Hops Hq. apply valid_size_In in HS.
+  apply Inv_get; auto. apply Inv_run; auto. apply Inv_new; auto.
+Qed.
 
 Lemma rb_get_seq b seq p : rb_get b seq = Some p -> rp_seq p = seq.
 Proof.
